@@ -158,7 +158,7 @@ def assemble(unit_path, variant=None):
             A.emit(text, "extract", qual, lmap, p["relpath"])
             end = len(A.lines)
             A.rewrites += log
-            mode = "M4" if ann.get("seg_from") else "M3" if ann.get("slice_k") is not None else ("M2" if (ann.get("replaces") or ann.get("maploops") or ann.get("forloops") or ann.get("anyloops") or ann.get("findloops") or ann.get("findmuts")) else "M1")
+            mode = "M4" if ann.get("seg_from") else "M3" if ann.get("slice_k") is not None else ("M2" if (ann.get("replaces") or ann.get("maploops") or ann.get("forloops") or ann.get("anyloops") or ann.get("findloops") or ann.get("posloops") or ann.get("findmuts") or ann.get("findmutlets")) else "M1")
             if ann.get("imported_from"):
                 mode = "ASSUMED"
                 A.trusted.append(f"contract of {p['relpath']}::{qual} imported verbatim from unit {ann['imported_from']} where it is PROVED")
@@ -217,6 +217,12 @@ def assemble(unit_path, variant=None):
             ann.setdefault("anyloops", {})[arg] = text
         elif name == "findloop":
             ann.setdefault("findloops", {})[arg] = text
+        elif name == "posloop":
+            ann.setdefault("posloops", {})[arg] = text
+        elif name == "findmutletexit":
+            ann.setdefault("findmutletexits", {})[arg] = text
+        elif name == "findmutlet":
+            ann.setdefault("findmutlets", {})[arg] = text
         elif name == "findmut":
             ann.setdefault("findmuts", {})[arg] = text
         elif name == "findmuthit":
@@ -275,7 +281,7 @@ def assemble(unit_path, variant=None):
         d, rest = m.group(1), m.group(2).strip()
         if d != "use":
             flush_groups()
-        if d in ("requires", "ensures", "closure", "loop", "maploop", "forloop", "anyloop", "findloop", "findhit", "findexit", "findmut", "findmuthit", "findmutexit", "looptail", "loophead", "head", "tail", "params", "optparams", "segtail", "before", "before_stmt", "after", "replace", "with", "decreases"):
+        if d in ("requires", "ensures", "closure", "loop", "maploop", "forloop", "anyloop", "findloop", "findhit", "findexit", "posloop", "findmutlet", "findmutletexit", "findmut", "findmuthit", "findmutexit", "looptail", "loophead", "head", "tail", "params", "optparams", "segtail", "before", "before_stmt", "after", "replace", "with", "decreases"):
             close_section()
             if pending is None:
                 raise Inconclusive(f"{unit_path}:{i+1}: //@{d} outside //@fn")
